@@ -163,6 +163,10 @@ def result_terms(res):
     """[(i, j, mu_term, sigma_term)] of a rate() result."""
     out = []
     for i, team in enumerate(res):
+        if hasattr(team, "teams") and hasattr(team, "g"):
+            # a team of symbolic size (pyvc/teams.py): its arbitrary member
+            out.append((i, "k", term(team.g.mu), term(team.g.sigma)))
+            continue
         for j, p in enumerate(team):
             out.append((i, j, term(p.mu), term(p.sigma)))
     return out
@@ -190,7 +194,10 @@ def flatten(x, out=None):
     symbolic numbers, Python values otherwise; ratings contribute mu, sigma."""
     if out is None:
         out = []
-    if isinstance(x, (list, tuple)):
+    if hasattr(x, "teams") and hasattr(x, "g") and not isinstance(x, (list, tuple)):
+        out.append(("team", getattr(x.teams()[0].root, "index", None)))
+        flatten(x.g, out)
+    elif isinstance(x, (list, tuple)):
         out.append(("seq", len(x)))
         for y in x:
             flatten(y, out)
